@@ -15,6 +15,7 @@ type EngineGenOpts struct {
 	Ops      int  // approximate number of operations
 	FixedIO  int  // -1: draw, else force this FileIOType
 	HostileCaller bool
+	HostileSome   bool // a third of the scenarios are run by the hostile caller (buffers reused and overwritten after every call)
 	MergeHeavy    bool // several merges per scenario, each followed by restarts (adoption, second restart), small files
 	RacingMerge   bool // with MergeHeavy: some merges run with Put / Delete calls of another client between the scan steps
 	BackupCycle   bool // some scenarios refresh one backup directory around an adopted merge of uniform-size records
@@ -110,8 +111,9 @@ func GenEngineScript(r *Rng, o EngineGenOpts, hist map[string]int) []string {
 		c.fsize = 1 << 20
 	}
 	add("dir db")
-	if o.HostileCaller {
+	if o.HostileCaller || (o.HostileSome && r.Chance(1, 3)) {
 		add("hostile 1")
+		hist["hostile_caller"]++
 	}
 	add("open %s", c)
 	if steer {
@@ -469,6 +471,23 @@ func GenCrashScript(r *Rng, kind string, hist map[string]int) []string {
 	if kind != "plain" && r.Chance(1, 2) {
 		batch()
 	}
+	if kind == "merge" && r.Chance(1, 3) {
+		// an earlier merge, adopted by a restart: its hint file stays in the data directory while the
+		// merge under test runs and is adopted
+		for i := 2 + r.Intn(5); i > 0; i-- {
+			mut()
+		}
+		add("merge")
+		add("close")
+		c = genCfg(r, o, hist)
+		c.fsize = r.Pick(64, 200, 700, 4096)
+		add("open %s", c)
+		add("dump")
+		for i := 1 + r.Intn(4); i > 0; i-- {
+			mut()
+		}
+		hist["crash_merge_after_adopted_merge"]++
+	}
 	add("mark")
 	n := 2 + r.Intn(8)
 	for i := 0; i < n; i++ {
@@ -564,6 +583,8 @@ func init() {
 				o.BackupCycle = true
 			case "hostile":
 				o.HostileCaller = true
+			case "hostilesome":
+				o.HostileSome = true
 			case "mergeheavy":
 				o.MergeHeavy = true
 				o.Merges = true
